@@ -531,18 +531,36 @@ func DiffPaths(a, b Dump) []string {
 			return graph()
 		}
 		fx := map[string]string{}
+		// the dynamic type of an interface-typed value is the "(type)" suffix of its path
+		tx, ty := map[string]string{}, map[string]string{}
 		for _, f := range x.Fields {
 			fx[f.Path] = reName.ReplaceAllString(f.Val, "<node>")
+			if b, t, ok := splitDyn(f.Path); ok {
+				tx[b] = t
+			}
+		}
+		for _, f := range y.Fields {
+			if b, t, ok := splitDyn(f.Path); ok {
+				ty[b] = t
+			}
 		}
 		seen := map[string]bool{}
 		for _, f := range y.Fields {
 			seen[f.Path] = true
 			if v, ok := fx[f.Path]; !ok || v != reName.ReplaceAllString(f.Val, "<node>") {
-				set[x.Type+"."+stripIndex(f.Path)] = true
+				if b, t, isDyn := splitDyn(f.Path); isDyn && !ok && tx[b] != "" && tx[b] != t {
+					// the argument changed its TYPE: named as such
+					set[x.Type+"."+stripIndex(f.Path)+":"+tx[b]+"->"+t] = true
+				} else {
+					set[x.Type+"."+stripIndex(f.Path)] = true
+				}
 			}
 		}
 		for _, f := range x.Fields {
 			if !seen[f.Path] {
+				if b, t, isDyn := splitDyn(f.Path); isDyn && ty[b] != "" && ty[b] != t {
+					continue // reported above as a type change
+				}
 				set[x.Type+"."+stripIndex(f.Path)] = true
 			}
 		}
@@ -565,6 +583,18 @@ func headTail(h string) []string {
 		return []string{strings.TrimPrefix(fs[2], "wants="), strings.TrimPrefix(fs[3], "provides=")}
 	}
 	return nil
+}
+
+// splitDyn: "Args[1](string)" -> ("Args[1]", "string"): an interface-typed leaf and its dynamic type.
+func splitDyn(p string) (base, typ string, ok bool) {
+	if !strings.HasSuffix(p, ")") {
+		return "", "", false
+	}
+	i := strings.LastIndex(p, "(")
+	if i < 0 {
+		return "", "", false
+	}
+	return p[:i], p[i+1 : len(p)-1], true
 }
 
 // stripIndex: "Handlers[0].To.len" -> "Handlers": the property, not the element.
